@@ -14,7 +14,7 @@ VARIABLES expPre, expOut
 
 ToSet(s) == {s[i] : i \in DOMAIN s}
 AllowIds == IF "ALLOW" \in DOMAIN IOEnv THEN IOEnv.ALLOW ELSE ""
-KnownIds == {"KF-C05-notlonger", "KF-C09-rollback-number", "KF-C16-txheight", "KF-C06-blockhash", "KF-C03-stale-before-start", "KF-C04-spanning-record", "KF-C06-foreign-branch", "KF-C14-envelope"}
+KnownIds == {"KF-C05-stale-longfork", "KF-C05-notlonger", "KF-C09-rollback-number", "KF-C16-txheight", "KF-C06-blockhash", "KF-C03-stale-before-start", "KF-C04-spanning-record", "KF-C06-foreign-branch", "KF-C14-envelope"}
 Allow == {id \in KnownIds : \E i \in 1..(Len(AllowIds) - Len(id) + 1) : SubSeq(AllowIds, i, i + Len(id) - 1) = id}
 Prop == IF "PROP" \in DOMAIN IOEnv THEN IOEnv.PROP ELSE "C03"
 
@@ -274,6 +274,10 @@ Step(r) ==
                                 /\ r.a.during = "Proof" /\ r.a.msg = "long fork detected"
                                 /\ peer[r.a.args.p].req.on /\ peer[r.a.args.p].req.fork
                                 /\ r.a.args.kind = "honest"
+                                \* ... of a fork that really shares none of the remembered headers
+                                /\ \/ ForkIsLong(r.a.args.last)
+                                   \/ /\ "KF-C05-stale-longfork" \in cfg.allow
+                                      /\ PrintT(<<"KNOWN-FINDING", "KF-C05-stale-longfork", r.a.args.p, r.a.args.last, tip>>)
                                 /\ UNCHANGED psCore /\ PipeUnchanged
       [] OTHER               -> FALSE
 
